@@ -258,11 +258,20 @@ class StingyConfigurator(pg.All):
                 out : Dict[str, int]
         """
         flat = self.flatten()
+        # flatten() keeps one object per id/hash; the non-default branch of a defaulted Any is
+        # tagged by a `prio` attribute only, so it may be represented there by an identical
+        # untagged proposition. Collect the tag from every occurrence in the tree.
+        prios = {}
+        stack = [self]
+        while stack:
+            p = stack.pop()
+            prios[p.id] = min(prios.get(p.id, -1), getattr(p, "prio", -1))
+            stack.extend(getattr(p, "propositions", []))
         return dict(
             zip(
                 map(operator.attrgetter("id"), flat),
                 map(
-                    lambda p: getattr(p, "prio", -1),
+                    lambda p: prios[p.id],
                     flat
                 )
             )
